@@ -1,0 +1,10 @@
+//! Verification hook (C10): mounted as `crate::gossip::verif_entry` (a child of `gossip`, so that the
+//! private `handshake::Handshake` is reachable). Decoding only, no behaviour of its own.
+use super::handshake;
+
+/// `zksync_protobuf::decode::<gossip::handshake::Handshake>`.
+pub(crate) fn decode_handshake(bytes: &[u8]) -> Result<usize, String> {
+    zksync_protobuf::decode::<handshake::Handshake>(bytes)
+        .map(|_| 0)
+        .map_err(|err| format!("{err:#}"))
+}
